@@ -153,6 +153,33 @@ func (b *binder) bind1(v ssa.Value, d int) string {
 	case *ssa.TypeAssert:
 		return b.bindD(x.X, d+1)
 	case *ssa.Slice:
+		// a literal / variadic array: list its elements
+		if arr := isLocalArrayAlloc(x.X); arr != nil {
+			elems := map[int64][]string{}
+			var idxs []int64
+			for _, r := range *arr.Referrers() {
+				if ia, ok := r.(*ssa.IndexAddr); ok {
+					if k, ok := constInt(ia.Index); ok {
+						for _, r2 := range *ia.Referrers() {
+							if st, ok := r2.(*ssa.Store); ok && st.Addr == ssa.Value(ia) {
+								if _, seen := elems[k]; !seen {
+									idxs = append(idxs, k)
+								}
+								elems[k] = append(elems[k], b.bindD(st.Val, d+1))
+							}
+						}
+					}
+				}
+			}
+			if len(idxs) > 0 {
+				sort.Slice(idxs, func(i, j int) bool { return idxs[i] < idxs[j] })
+				var parts []string
+				for _, k := range idxs {
+					parts = append(parts, alts(elems[k]))
+				}
+				return "[" + strings.Join(parts, ", ") + "]"
+			}
+		}
 		return "slice(" + b.bindD(x.X, d+1) + ")"
 	case *ssa.MakeClosure:
 		return "closure:" + x.Fn.Name()
@@ -312,7 +339,12 @@ func (b *binder) fieldRef(base ssa.Value, field int, d int) string {
 			return alts(as)
 		}
 	}
-	return b.bindD(base, d+1) + "." + fname
+	bs := b.bindD(base, d+1)
+	switch base.(type) {
+	case *ssa.FieldAddr, *ssa.IndexAddr:
+		bs = strings.TrimPrefix(bs, "&") // the address of the enclosing object: select the field of the object itself
+	}
+	return bs + "." + fname
 }
 
 func (b *binder) bindCall(x *ssa.Call, d int) string {
